@@ -188,7 +188,7 @@ func (ex *Exec) applyContract(fr *Frame, fn *ssa.Function, ct *Contract, args []
 	for _, m := range errs {
 		ex.unsupp("contract %s: %s", ct.Func, m)
 	}
-	return []Result{{st, ret}}
+	return []Result{{st, ret, nil}}
 }
 
 // pureResult: the result of a function with a `pure` contract is an uninterpreted function of the store, the
@@ -365,7 +365,8 @@ func (ex *Exec) symbolicParam(st *State, p *ssa.Parameter, world int, ctx **CtxV
 		return &SliceV{Obj: o, Off: IntLit(0), Len: n, Elem: sl.Elem()}
 	}
 	if _, ok := t.Underlying().(*types.Signature); ok {
-		return &OpaqueV{"funcparam"}
+		// a function-typed parameter: an arbitrary pure, deterministic function of its arguments
+		return &FuncV{Builtin: "param:" + p.Name(), Data: []Val{&OpaqueV{types.TypeString(t, nil)}}, Sig: t.Underlying().(*types.Signature)}
 	}
 	v := Var("in_"+p.Name(), sortOf(t))
 	tmp := NewState()
@@ -431,6 +432,7 @@ func (ex *Exec) verifyFunction(fn *ssa.Function, ct *Contract, prefix string) *F
 	anyRet := False
 	for _, r := range rs {
 		post := ex.envFor(fn, params, ctx, r.st, entry.st)
+		post.fr = r.fr // final values of locals may be mentioned by ensures clauses
 		post = resultVars(post, fn.Signature, r.ret)
 		post = ex.bindLets(post, ct.Lets, &errs)
 		anyRet = Or(anyRet, r.st.PC())
